@@ -103,10 +103,10 @@ theorem recv_cl_ext {s s1 : State} {x : BufElem} (hr : recvBuf s = some (x, s1))
       · right; rw [e]; exact ⟨hi, e'⟩
 
 /-- Every step changes a client's pc either not at all, or by a `spawn` of that client, or
-along its own-step relation `Own`, or along `Ext` (another thread's step) from a non-idle pc. -/
+along its own-step relation `OwnTr`, or along `Ext` (another thread's step) from a non-idle pc. -/
 theorem step_cl {cfg : Cfg} {s s' : State} {a : Action} (hs : step cfg s a = some s') (t : Tid) :
     s'.cl t = s.cl t ∨ (∃ c, a = .spawn t c ∧ s.cl t = .idle ∧ s'.cl t = startPc c) ∨
-      (∃ ch, a = .client t ch ∧ Own (s.cl t) (s'.cl t)) ∨ (s.cl t ≠ .idle ∧ Ext (s.cl t) (s'.cl t)) := by
+      (∃ ch, a = .client t ch ∧ OwnTr (s.cl t) (s'.cl t)) ∨ (s.cl t ≠ .idle ∧ Ext (s.cl t) (s'.cl t)) := by
   cases a with
   | spawn t0 c =>
     have hs' : spawnStep s t0 c = some s' := hs
@@ -196,13 +196,13 @@ theorem step_cl {cfg : Cfg} {s s' : State} {a : Action} (hs : step cfg s a = som
 
 /-! ### facts about the transition relations -/
 
-theorem own_closing {pc pc' : CPc} (h : Own pc pc') : pc'.closing = true → pc.closing = true := by
+theorem own_closing {pc pc' : CPc} (h : OwnTr pc pc') : pc'.closing = true → pc.closing = true := by
   cases h <;> (intro h; first | exact h | cases h | rfl)
 
 theorem ext_closing {pc pc' : CPc} (h : Ext pc pc') (hne : pc ≠ .idle) : pc'.closing = true → pc.closing = true := by
   cases h <;> (intro h; first | exact h | cases h | rfl | exact absurd rfl hne)
 
-theorem own_wf {pc pc' : CPc} (h : Own pc pc') : pc'.wf = true := by
+theorem own_wf {pc pc' : CPc} (h : OwnTr pc pc') : pc'.wf = true := by
   cases h <;> first | rfl | (simp [CPc.wf]; done) | (rename_i hk; simp [CPc.wf]; exact hk)
 
 theorem ext_wf {pc pc' : CPc} (h : Ext pc pc') : pc'.wf = true := by
@@ -210,15 +210,15 @@ theorem ext_wf {pc pc' : CPc} (h : Ext pc pc') : pc'.wf = true := by
   | @spawn call _ he => subst he; cases call <;> rfl
   | _ => rfl
 
-theorem own_not_idle {pc pc' : CPc} (h : Own pc pc') : pc ≠ .idle := by
+theorem own_not_idle {pc pc' : CPc} (h : OwnTr pc pc') : pc ≠ .idle := by
   cases h <;> simp
 
 /-- own steps from a non-special pc never end in a blocked or waiting pc -/
-theorem own_nonspecial {pc pc' : CPc} (h : Own pc pc') (hs : pc.special = false) :
+theorem own_nonspecial {pc pc' : CPc} (h : OwnTr pc pc') (hs : pc.special = false) :
     pc'.sendBlocked = false ∧ pc'.waitsFor = none := by
   cases h <;> first | exact ⟨rfl, rfl⟩ | cases hs
 
-theorem own_quiet {pc pc' : CPc} (h : Own pc pc') (hq : pc.quiet = true) : pc'.quiet = true := by
+theorem own_quiet {pc pc' : CPc} (h : OwnTr pc pc') (hq : pc.quiet = true) : pc'.quiet = true := by
   cases h <;> first | rfl | cases hq
 
 theorem startPc_closing (c : Call) : (startPc c).closing = true → c = .close := by
